@@ -81,6 +81,8 @@ def _case(draw):
         ctl = ["->", ["f", "last", ["nocontrib"], []], act]
     else:
         ctl = ["f", "last", [], []]
+    if kind == "advance" and draw(st.integers(0, 2)) != 0:
+        scan = draw(progs.gap_scans(table))  # advance across gaps of a non-contiguous scan
     pos = draw(st.integers(0, len(comps)))
     if kind.startswith("last") and kind != "last_bare":
         pos = len(comps)  # a 'last() ->' component comes last (quantifier of C01/C13)
